@@ -10,11 +10,11 @@ for f in sorted(glob.glob("/verif/seeded/*/meta.json")):
     sigs = m.get("check_violations", [])
     short = ", ".join(s.split(".", 1)[1] if "." in s else s for s in sigs[:3]) + (f" (+{len(sigs)-3})" if len(sigs) > 3 else "")
     rows.append((m["seed"], ", ".join(os.path.basename(x) for x in files), "yes" if m.get("confirmed") else "NO",
-                 "**caught**" if m.get("detected") else ("outside the statement" if m.get("outside_statement") else "missed"), short or "-"))
+                 ("caught on the base it was written for; superseded by a later fix" if m.get("superseded_by_fix") else "**caught**" if m.get("detected") else ("outside the statement" if m.get("outside_statement") else "missed")), short or "-"))
 print("| seed | changed file(s) | confirmed (tests pass, demo fails with / passes without) | quick check | signatures reported |")
 print("|---|---|---|---|---|")
 for r in rows:
     print("| " + " | ".join(r) + " |")
-n = len(rows); c = sum(1 for r in rows if r[3] == "**caught**"); o = sum(1 for r in rows if r[3] == "outside the statement")
+n = len(rows); c = sum(1 for r in rows if r[3] == "**caught**" or r[3].startswith("caught on the base")); o = sum(1 for r in rows if r[3] == "outside the statement")
 print(f"\n{c} of {n - o} seeded changes that violate the statement are reported by the quick tier of the property's check"
       + (f"; {o} seeded change(s) turned out not to violate the statement as written (reason in seeded/<id>/meta.json, field outside_statement) and are rightly not reported." if o else "."))
